@@ -2000,11 +2000,6 @@ void hostlist_sort(hostlist_t hl)
     hostlist_iterator_t i;
     LOCK_HOSTLIST(hl);
 
-    if (hl->nranges <= 1) {
-        UNLOCK_HOSTLIST(hl);
-        return;
-    }
-
     qsort(hl->hr, hl->nranges, sizeof(hostrange_t), &_cmp);
 
     /* reset all iterators */
@@ -2117,10 +2112,6 @@ void hostlist_uniq(hostlist_t hl)
     int i = 1;
     hostlist_iterator_t hli;
     LOCK_HOSTLIST(hl);
-    if (hl->nranges <= 1) {
-        UNLOCK_HOSTLIST(hl);
-        return;
-    }
     qsort(hl->hr, hl->nranges, sizeof(hostrange_t), &_cmp);
 
     while (i < hl->nranges) {
